@@ -243,6 +243,119 @@ theorem SpecRun.det_events {k k' : Kind} {v v1 w w1 : View D} {ops : List (Op D)
       exact ih (fun op hop => hd op (List.mem_cons_of_mem _ hop))
         (SpecStep.det_events (hd _ (List.mem_cons_self ..)) hvw hs hs') hr'
 
+/-! ## determinism relative to a view: replace-last without ties -/
+
+/-- `op` leaves the reference model no choice in view `v`: as `Op.Det`, plus replace-last on a
+    bucket whose newest events all carry the same id (no tie among equal timestamps) -/
+def DetAt (v : View D) : Op D → Prop
+  | .insert _ _ => False
+  | .insertMany _ es => ∀ e ∈ es, e.id.isSome = true
+  | .replaceLast b _ _ =>
+    ∀ m es t t', v b = some (m, es) → Spec.IsNewest es t → Spec.IsNewest es t' → t.id = t'.id
+  | _ => True
+
+theorem Op.Det.detAt {op : Op D} (h : op.Det) (v : View D) : DetAt v op := by
+  cases op <;> first | exact h | exact absurd h id
+
+theorem SpecStep.detAt {k : Kind} {v v1 v2 : View D} {op : Op D} (hd : DetAt v op)
+    (h1 : SpecStep k v v1 op) (h2 : SpecStep k v v2 op) : v1 = v2 := by
+  cases op with
+  | replaceLast b hint e =>
+    obtain ⟨m, es, t, hv, ht, e1⟩ := h1
+    obtain ⟨m', es', t', hv', ht', e2⟩ := h2
+    rw [hv] at hv'
+    injection hv' with hv'
+    injection hv' with _ hes
+    subst hes
+    rw [e1, e2, hd m es t t' hv ht ht']
+  | insert b e => exact absurd hd id
+  | create b m => exact SpecStep.det (op := .create b m) trivial h1 h2
+  | update b u => exact SpecStep.det (op := .update b u) trivial h1 h2
+  | deleteBucket b => exact SpecStep.det (op := .deleteBucket b) trivial h1 h2
+  | insertMany b es => exact SpecStep.det (op := .insertMany b es) hd h1 h2
+  | replace b i e => exact SpecStep.det (op := .replace b i e) trivial h1 h2
+  | delete b i => exact SpecStep.det (op := .delete b i) trivial h1 h2
+
+theorem SpecStep.detAt_events {k k' : Kind} {v v1 w w1 : View D} {op : Op D} (hd : DetAt v op)
+    (hvw : evView v = evView w) (h1 : SpecStep k v v1 op) (h2 : SpecStep k' w w1 op) :
+    evView v1 = evView w1 := by
+  cases op with
+  | replaceLast b hint e =>
+    obtain ⟨m, es, t, hv, ht, e1⟩ := h1
+    obtain ⟨m', es', t', hv', ht', e2⟩ := h2
+    have hb := congrFun hvw b
+    unfold evView at hb
+    rw [hv, hv'] at hb
+    injection hb with hes
+    have hes : es = es' := hes
+    subst hes
+    rw [e1, e2, evView_replaceId, evView_replaceId, hvw, hd m es t t' hv ht ht']
+  | insert b e => exact absurd hd id
+  | create b m => exact SpecStep.det_events (op := .create b m) trivial hvw h1 h2
+  | update b u => exact SpecStep.det_events (op := .update b u) trivial hvw h1 h2
+  | deleteBucket b => exact SpecStep.det_events (op := .deleteBucket b) trivial hvw h1 h2
+  | insertMany b es => exact SpecStep.det_events (op := .insertMany b es) hd hvw h1 h2
+  | replace b i e => exact SpecStep.det_events (op := .replace b i e) trivial hvw h1 h2
+  | delete b i => exact SpecStep.det_events (op := .delete b i) trivial hvw h1 h2
+
+section Lockstep
+variable {S1 S2 : Type} (view1 : S1 → View D) (step1 : S1 → Op D → S1) (Inv1 : S1 → Prop)
+  (view2 : S2 → View D) (step2 : S2 → Op D → S2) (Inv2 : S2 → Prop) (k1 k2 : Kind)
+
+/-- `Admissible` and no choice left to the reference model before every step -/
+def AdmissibleDet : S1 → List (Op D) → Prop
+  | _, [] => True
+  | s, op :: ops => Pre k1 (view1 s) op ∧ DetAt (view1 s) op ∧ AdmissibleDet (step1 s op) ops
+
+theorem AdmissibleDet.admissible {s : S1} {ops : List (Op D)}
+    (h : AdmissibleDet view1 step1 k1 s ops) : Admissible view1 step1 k1 s ops := by
+  induction ops generalizing s with
+  | nil => trivial
+  | cons op t ih => exact ⟨h.1, ih h.2.2⟩
+
+theorem admissibleDet_of_det {s : S1} {ops : List (Op D)} (hd : ∀ op ∈ ops, op.Det)
+    (h : Admissible view1 step1 k1 s ops) : AdmissibleDet view1 step1 k1 s ops := by
+  induction ops generalizing s with
+  | nil => trivial
+  | cons op t ih =>
+    exact ⟨h.1, (hd op (List.mem_cons_self ..)).detAt _,
+      ih (fun o ho => hd o (List.mem_cons_of_mem _ ho)) h.2⟩
+
+/-- two backends refining the reference model, run in lockstep on a history that leaves the
+    reference model no choice, keep equal event contents -/
+theorem lockstep_events
+    (hinv1 : ∀ s op, Inv1 s → Inv1 (step1 s op)) (hinv2 : ∀ s op, Inv2 s → Inv2 (step2 s op))
+    (href1 : ∀ s op, Inv1 s → Pre k1 (view1 s) op → SpecStep k1 (view1 s) (view1 (step1 s op)) op)
+    (href2 : ∀ s op, Inv2 s → Pre k2 (view2 s) op → SpecStep k2 (view2 s) (view2 (step2 s op)) op)
+    (ops : List (Op D)) (s1 : S1) (s2 : S2) (h1 : Inv1 s1) (h2 : Inv2 s2)
+    (e : evView (view1 s1) = evView (view2 s2))
+    (a1 : AdmissibleDet view1 step1 k1 s1 ops) (a2 : Admissible view2 step2 k2 s2 ops) :
+    evView (view1 (ops.foldl step1 s1)) = evView (view2 (ops.foldl step2 s2)) := by
+  induction ops generalizing s1 s2 with
+  | nil => exact e
+  | cons op t ih =>
+    exact ih _ _ (hinv1 s1 op h1) (hinv2 s2 op h2)
+      (SpecStep.detAt_events a1.2.1 e (href1 s1 op h1 a1.1) (href2 s2 op h2 a2.1)) a1.2.2 a2.2
+
+/-- … and equal views when the two kinds have the same reference step -/
+theorem lockstep_eq (hk : ∀ (v v' : View D) op, SpecStep k2 v v' op → SpecStep k1 v v' op)
+    (hinv1 : ∀ s op, Inv1 s → Inv1 (step1 s op)) (hinv2 : ∀ s op, Inv2 s → Inv2 (step2 s op))
+    (href1 : ∀ s op, Inv1 s → Pre k1 (view1 s) op → SpecStep k1 (view1 s) (view1 (step1 s op)) op)
+    (href2 : ∀ s op, Inv2 s → Pre k2 (view2 s) op → SpecStep k2 (view2 s) (view2 (step2 s op)) op)
+    (ops : List (Op D)) (s1 : S1) (s2 : S2) (h1 : Inv1 s1) (h2 : Inv2 s2)
+    (e : view1 s1 = view2 s2)
+    (a1 : AdmissibleDet view1 step1 k1 s1 ops) (a2 : Admissible view2 step2 k2 s2 ops) :
+    view1 (ops.foldl step1 s1) = view2 (ops.foldl step2 s2) := by
+  induction ops generalizing s1 s2 with
+  | nil => exact e
+  | cons op t ih =>
+    refine ih _ _ (hinv1 s1 op h1) (hinv2 s2 op h2) ?_ a1.2.2 a2.2
+    have r2 := hk _ _ _ (href2 s2 op h2 a2.1)
+    rw [← e] at r2
+    exact SpecStep.detAt a1.2.1 (href1 s1 op h1 a1.1) r2
+
+end Lockstep
+
 /-! ## listings determined by a view -/
 
 theorem listed_of_view {L : List (String × Meta)} {v : View D}
